@@ -35,6 +35,12 @@ def locate(src_toks, spec):
         if len(blocks) != 1:
             raise LostAnchor("%s header /%s/ matched %d blocks" % (spec["block"], spec["header"], len(blocks)))
         return blocks[0]
+    if spec.get("within"):
+        kw, hdr = spec["within"]
+        blocks = find_blocks(src_toks, kw, hdr)
+        if len(blocks) != 1:
+            raise LostAnchor("%s header /%s/ matched %d blocks" % (kw, hdr, len(blocks)))
+        lo, hi = blocks[0].body_open, blocks[0].body_close
     if spec.get("impl"):
         blocks = find_blocks(src_toks, "impl", spec["impl"])
         if len(blocks) != 1:
